@@ -177,6 +177,40 @@ def _call(c):
     return o, o(xs, degree=c["degree"], raw=c["raw"]), o(ys, degree=c["degree"], raw=c["raw"])
 
 
+def _via_formula(c, xs, ys, A, B):
+    import warnings
+    import numpy as np
+    import pandas as pd
+    from formulae import design_matrices
+    t = c["t"]
+    if t == "bs":
+        if c.get("knots") or c["lower"] is not None or c["upper"] is not None or c["df"] is None:
+            return None
+        call = f"bs(x, df={c['df']}, degree={c['degree']}, intercept={c['intercept']})"
+    elif t == "poly":
+        call = f"poly(x, {c['degree']}, raw={c['raw']})"
+    else:
+        call = f"{t}(x)"
+    try:
+        with warnings.catch_warnings():
+            warnings.simplefilter("ignore")
+            d = design_matrices(f"y ~ 0 + {call}", pd.DataFrame({"y": np.zeros(len(xs)), "x": xs}))
+            M1 = np.asarray(d.common.design_matrix, dtype=float)
+            M2 = np.asarray(d.common.evaluate_new_data(pd.DataFrame({"x": ys})).design_matrix, dtype=float)
+    except Exception:  # noqa
+        return None
+    tol = 1e-6 if t == "poly" else 1e-8
+    scale_ = 1 + float(np.max(np.abs(xs)))
+    for name, got, want in (("training", M1, A), ("later", M2, B)):
+        want = np.asarray(want, dtype=float).reshape(got.shape[0], -1)
+        if want.shape != got.shape or not (np.all(np.isfinite(want)) and np.all(np.isfinite(got))):
+            return None
+        if not np.allclose(got, want, rtol=tol, atol=tol * scale_):
+            return (f"{c}: '{call}' in a formula gives other values on the {name} data than the transform fitted "
+                    f"directly on the training data (first row {got[0][:3].tolist()} against {want[0][:3].tolist()})")
+    return None
+
+
 def _recall(o, c, v):
     """the fitted object o applied once more, to the values v"""
     t = c["t"]
@@ -309,6 +343,10 @@ def oracle(c):
     A = np.asarray(A, dtype=float)
     B = np.asarray(B, dtype=float)
     scale_ = 1 + np.max(np.abs(xs))
+    # through a formula the transform is fitted once, by design_matrices, and evaluate_new_data applies THAT fit
+    msg = _via_formula(c, xs, ys, A, B)
+    if msg:
+        return msg
     # the fitted transform is a function of the value alone: a later value that also occurred in training gets
     # its training row, and what a later value gets does not depend on the other later values
     if A.ndim == B.ndim and A.shape[1:] == B.shape[1:] and np.all(np.isfinite(A)) and np.all(np.isfinite(B)):
